@@ -172,6 +172,49 @@ def mu_lemmas(tags=None):
             Group(name="mu.lock_types_real_tables", srcs=S, entry="h_lock_types", no_dfcc=True, kind="lemma", defines=MU_DEF, tags=tags, min_obligations=5)]
 
 
+def condq_scripts(K, S):
+    """every maximal valid sequence of at most S queue operations with at most K enqueues (operation codes only; the records the removals
+    apply to, first/last for the enqueues and the conditions stay nondeterministic in the harness)"""
+    out = []
+
+    def rec(seq, e, m, n, l):
+        ext = []
+        if len(seq) < S:
+            if e < K: ext.append((seq + "E", e + 1, m + 1, n, l))
+            if m > 0 and n == 0 and l == 0: ext.append((seq + "t", e, m - 1, n, l))
+            if n == 0 and m > 0: ext.append((seq + "g", e, 0, m, l))
+            if n > 0: ext.append((seq + "w", e, m, n - 1, l))
+            if n > 0: ext.append((seq + "j", e, m, 0, l + n))
+            if n == 0 and m == 0 and l > 0: ext.append((seq + "p", e, l, 0, 0))
+        if not ext:
+            out.append(seq)
+        for x in ext:
+            rec(*x)
+    rec("", 0, 0, 0, 0)
+    return out
+
+
+def mu_condq_groups(tags=None, tier="quick"):
+    """C06 at queue level: same_condition rings of the real mu.c on the real dll.c (no abstract queue, no interference: these functions run
+    under the queue spinlock)."""
+    S = ["harness/mu/mu_condq.c"] + RG + ["repo:internal/dll.c", "repo:internal/common.c"]
+    D = ["VP_SEQUENTIAL", "VP_RG_MU"]
+    K, n = (4, 6) if tier == "thorough" else (3, 5)
+    gs = [Group(name="mu.merge_conditions", srcs=S, entry="h_merge", no_dfcc=True, kind="proof", defines=D, tags=tags, unwind=6, object_bits=10,
+                min_obligations=20, timeout=600, replay="rg", functions=["nsync_maybe_merge_conditions_", "nsync_dll_splice_after_"],
+                assumed=["loop-free harness over every equality pattern of the two condition arguments and every answer of condition_arg_eq: "
+                         "complete for one call; rings of one or two records on either side"])]
+    for sc in condq_scripts(K, n):
+        gs.append(Group(name=f"mu.condq.{sc}", srcs=S, entry="h_condq", no_dfcc=True, kind="bounded",
+                        bound=f"operation sequence {sc} (E enqueue last or first, t timeout removal, g scan pick-up, w wake, j re-join, p put back) on at most {K} "
+                              "waiter records; which record each removal hits, first/last for each enqueue and the conditions (none; f1 on A1, on A2 "
+                              "(eq-equivalent), on B; f2; f1 without condition_arg_eq) are arbitrary; all maximal sequences of this length are run, "
+                              "each checked after every operation",
+                        defines=D + [f"VP_K={K}", f"VP_S={len(sc)}", f'VP_SCRIPT="{sc}"'], tags=tags, unwind=10, object_bits=10, min_obligations=20,
+                        timeout=1200, replay="rg", functions=["nsync_maybe_merge_conditions_", "nsync_remove_from_mu_queue_", "skip_past_same_condition"]))
+    return gs
+
+
 # ---------------------------------------------------------------- once
 ONCE_S = ["harness/once/once_all.c", "rg/vp_rg.c", "rg/vp_once.c", "rg/vp_amu.c", "rg/vp_clock.c", "rg/vp_stubs.c",
           "repo:platform/posix/src/time_rep.c", "repo:internal/time_internal.c"]
